@@ -244,14 +244,24 @@ pub fn open_funded_perm(w: &mut World, spec: &ChanSpec, fs: &FundSpec, perm: boo
 /// A ready channel (no commitment validated yet) whose funding transaction is a real one
 /// (one wallet input, funding output at index 0) and is confirmed in a block connected to the
 /// node's tracker: the state in which an on-chain validator lets commitments advance.
-/// The node must be on regtest (`regtest_cfg`).
 pub fn open_confirmed(w: &mut World, spec: &ChanSpec) -> (usize, Transaction) {
     let ci = match w.new_stub(spec) {
         Out::Ok(i) => i,
         o => panic!("new_stub failed: {}", o.err_msg()),
     };
-    let path: DerivationPath = vec![ChildNumber::from_normal_idx(10).unwrap()].into();
-    let _ = w.node.get_native_address(&path).expect("address");
+    let funding_tx = funding_tx_for(w, ci);
+    match w.setup_chan(ci) {
+        Out::Ok(()) => {}
+        o => panic!("setup_chan failed: {}", o.err_msg()),
+    }
+    confirm_tx(w, &funding_tx, spec.dbid);
+    (ci, funding_tx)
+}
+
+/// A real funding transaction for the stub channel `ci` (one wallet input, funding output at
+/// index 0); the channel's intended setup is pointed at it.  Call before the channel is set up.
+pub fn funding_tx_for(w: &mut World, ci: usize) -> Transaction {
+    let spec = w.chans[ci].spec.clone();
     let funding_spk = w.chans[ci].funding_redeemscript().to_p2wsh();
     let funding_tx = Transaction {
         version: Version::TWO,
@@ -260,13 +270,16 @@ pub fn open_confirmed(w: &mut World, spec: &ChanSpec) -> (usize, Transaction) {
         output: vec![TxOut { value: Amount::from_sat(spec.value_sat), script_pubkey: funding_spk }],
     };
     w.chans[ci].setup.funding_outpoint = OutPoint { txid: funding_tx.compute_txid(), vout: 0 };
-    match w.setup_chan(ci) {
-        Out::Ok(()) => {}
-        o => panic!("setup_chan failed: {}", o.err_msg()),
-    }
+    funding_tx
+}
+
+/// Connect a block holding `tx` to the node's tracker (and persist the tracker).
+pub fn confirm_tx(w: &mut World, tx: &Transaction, salt: u64) {
     let tip = w.node.get_tracker().tip().0;
     let height = w.node.get_tracker().height() + 1;
-    let block = make_block(&tip, height, spec.dbid, vec![funding_tx.clone()]);
+    // regtest difficulty whatever the network: a testnet tracker accepts any difficulty between
+    // retarget heights (its 20-minute rule makes the bits of consecutive blocks unrelated)
+    let block = make_block_bits(&tip, height, salt, vec![tx.clone()], bitcoin::blockdata::constants::genesis_block(Network::Regtest).header.bits);
     let node = w.node.clone();
     let d = w.txn(|| {
         let d = tracker_add(&node, &block, false, 0);
@@ -278,7 +291,6 @@ pub fn open_confirmed(w: &mut World, spec: &ChanSpec) -> (usize, Transaction) {
         Deliver::Ok => {}
         d => panic!("connecting the funding block failed: {:?}", d),
     }
-    (ci, funding_tx)
 }
 
 fn must<T>(o: Out<T>, what: &str) -> T {
@@ -818,6 +830,11 @@ pub fn mine(prev: BlockHash, merkle_root: TxMerkleNode, bits: CompactTarget, tim
 
 /// A block on top of `prev` with a coinbase made unique by (height, salt).
 pub fn make_block(prev: &BlockHeader, height: u32, salt: u64, txs: Vec<Transaction>) -> Block {
+    make_block_bits(prev, height, salt, txs, prev.bits)
+}
+
+/// As `make_block`, mined for the given difficulty.
+pub fn make_block_bits(prev: &BlockHeader, height: u32, salt: u64, txs: Vec<Transaction>, bits: CompactTarget) -> Block {
     let mut sig = vec![4u8];
     sig.extend_from_slice(&height.to_le_bytes());
     sig.push(8);
@@ -831,7 +848,7 @@ pub fn make_block(prev: &BlockHeader, height: u32, salt: u64, txs: Vec<Transacti
     let mut all = vec![coinbase];
     all.extend(txs);
     let root = merkle_tree::calculate_root(all.iter().map(|t| t.compute_txid().to_raw_hash())).unwrap();
-    let header = mine(prev.block_hash(), TxMerkleNode::from_raw_hash(root), prev.bits, prev.time + 600);
+    let header = mine(prev.block_hash(), TxMerkleNode::from_raw_hash(root), bits, prev.time + 600);
     Block { header, txdata: all }
 }
 
